@@ -301,7 +301,13 @@ def run(ctx):
 
     # ------------------------------------------------------------------ R5
     ctx.rule("C14.R5", "argument and stdin transports split on the same delimiters; argument first, then stream", floor=3)
-    def char_consts(fname_prefix):
+    CHAR_CLASS = re.compile(r"char::methods::<impl char>::(is_whitespace|is_ascii_whitespace|is_control|is_ascii_control|is_alphanumeric|is_alphabetic|is_ascii_punctuation|is_ascii_graphic|is_numeric)$")
+
+    def char_consts(fname_prefix, classes=None):
+        """character constants the function compares its input with (assertions aside); `classes`, if given, collects the character-class
+        predicates it calls - a separator decided by a class is not decided by the listed characters"""
+        def asserted(x):
+            return any("assert" in m_ for m_ in (x.get("mac") or []))
         out = set()
         # the reader itself, its closures, and character predicates it hands to str::find / split / take_while as fn items
         scope = {n for n in prog.fns if n == fname_prefix or n.startswith(fname_prefix + "::{closure")}
@@ -313,8 +319,12 @@ def run(ctx):
                         scope.add(nm)
         for n, f in prog.fns.items():
             if n in scope:
+                if classes is not None:
+                    classes |= {short(c).rsplit("::", 1)[-1] for b, t, c in f.calls() if c and CHAR_CLASS.search(c) and not asserted(t)}
                 for b, i, s in f.assigns():
                     r = s["r"]
+                    if asserted(s):
+                        continue
                     if r["k"] == "agg" and r.get("ak") == "array" and r["ops"] and all(o.get("k") == "const" and str(o.get("ty")) == "char" for o in r["ops"]):
                         # `rest.find(['\n', ';'])`: an array of chars used as a pattern matches any of them
                         out |= {const_int(o) for o in r["ops"]}
@@ -324,7 +334,7 @@ def run(ctx):
                                 out.add(const_int(o))
                 for b in f.live_blocks():
                     t = f.term(b)
-                    if t["k"] == "switch" and t.get("ty") == "char":
+                    if t["k"] == "switch" and t.get("ty") == "char" and not asserted(t):
                         out |= {v for v, x in t["targets"]}
         return out
     da, ds = char_consts(ARG_READ), char_consts(STDIN_READ)
@@ -334,7 +344,12 @@ def run(ctx):
     if not ok:
         ctx.violation("delimiters", "src/debugger/command/reader", "the argument reader splits on %s, the stdin reader on %s (both must be newline and ';'): "
                       "a script means different things depending on how it arrives" % (sorted(map(chr, da)), sorted(map(chr, ds))))
-    nt = char_consts("lace::debugger::command::parse::Arguments::<'a>::next_token_str")
+    ntc = set()
+    nt = char_consts("lace::debugger::command::parse::Arguments::<'a>::next_token_str", ntc)
+    if ntc:
+        ctx.oblig(False, {"token separators": "decided by %s" % sorted(ntc)}, "space, ';', newline only")
+        ctx.violation("token-separator-class", "src/debugger/command/parse/mod.rs", "tokens are split with the character class test(s) %s: a tab or another such character now "
+                      "ends a token (and whatever follows it is dropped), although only space, ';' and newline separate tokens" % sorted(ntc))
     ok = nt == {32, 59, 10}
     ctx.oblig(ok, {"token separators": sorted(map(repr, map(chr, nt)))}, "space, ';', newline")
     if not ok:
@@ -359,8 +374,23 @@ def run(ctx):
                 tg = {v: x for v, x in tt["targets"]}
                 empt.append(tt["otherwise"] if 0 in tg else tg.get(1))
     bad_none = [b for b in nones if not any(e is not None and (e == b or sr.dominates(e, b)) for e in empt)]
-    ok = bool(nones) and not bad_none
-    ctx.oblig(ok, {"stdin reader": "`None` only behind buffer.is_empty()", "None returns": len(nones)}, "dominance")
+    # ... and only at end of input: behind the `None` edge of the character source (an empty command - a blank line, `;;` - is not the end)
+    eofs = []
+    for b, t, c in sr.calls():
+        if c and c.endswith("Stdin::read_char") and t.get("t") is not None:
+            sw_ = kit.switch_on_discr_of_local(sr, t["t"])
+            tt = sr.term(t["t"])
+            if sw_ and tt["k"] == "switch":
+                tg = {v: x for v, x in tt["targets"]}
+                eofs.append(tg.get(0, tt["otherwise"]))
+    bad_eof = [b for b in nones if not any(e == b or sr.dominates(e, b) for e in eofs)]
+    ok = bool(nones) and not bad_none and bool(eofs) and not bad_eof
+    ctx.oblig(ok, {"stdin reader": "`None` only behind buffer.is_empty() and behind the end of input", "None returns": len(nones)}, "dominance")
+    if bool(nones) and not bad_none and (bad_eof or not eofs):
+        ctx.violation("stdin-empty-command-is-eof", sp_file_line(sr.stmts(bad_eof[0])[0].get("sp")) if bad_eof and sr.stmts(bad_eof[0]) else sr.file_line(),
+                      "the stdin reader can answer `None` (end of commands) without having reached the end of input: an empty command (blank line, `;;`) "
+                      "ends the session on standard input, and the rest of the script is left for the program's own input traps")
+        ok = True
     if not ok:
         ctx.violation("stdin-eof-drops-text", sp_file_line(sr.stmts(bad_none[0])[0].get("sp")) if bad_none and sr.stmts(bad_none[0]) else sr.file_line(),
                       "the stdin reader can answer `None` (end of commands) although it has collected text: a last command that is not followed by a newline or "
@@ -670,4 +700,19 @@ def run(ctx):
                               "the argument reader's byte cursor is assigned `%s`, whose dimension is %s (%s): a command containing a multi-byte character is cut "
                               "short and its tail is run as a command of its own, which does not happen on standard input"
                               % (expr_str(e, 80), d, {"C": "a character count", "MIX": "bytes mixed with characters", "U": "unclassified"}.get(d, d)))
+    ctx.finish_rule()
+
+    # ------------------------------------------------------------------ R11
+    # the value of a literal is the mathematical value of its digits or the literal is rejected: the accumulator of the digit loop must
+    # not wrap, saturate or drop an overflow flag (a value of 2^32 or more would come back as a small number and pass every range check)
+    ctx.rule("C14.R11", "the integer parser accumulates exactly (checked arithmetic only)", floor=1)
+    LOSSY = re.compile(r"core::num::<impl [iu](8|16|32|64|128|size)>::(wrapping_|saturating_|overflowing_|unchecked_)(add|sub|mul|shl|neg|pow)$")
+    scope11 = {n for n in ctx.cg.reachable([PINT]) | {PINT} if n in prog.fns and prog.fns[n].bkind == "fn" and n.startswith(PI)}
+    ctx.instance(len(scope11))
+    lossy = [(n, t, c) for n in sorted(scope11) for b, t, c in prog.fns[n].calls() if c and LOSSY.search(c)]
+    ctx.oblig(not lossy, {"functions of the integer parser": sorted(short(n) for n in scope11), "lossy operations": [short(c) for n, t, c in lossy]}, "none")
+    for n, t, c in lossy:
+        ctx.violation("lossy-accumulate|%s" % short(c).rsplit("::", 1)[-1], sp_file_line(t.get("sp")),
+                      "`%s` uses `%s`: a literal too large for the accumulator no longer fails, it comes back reduced modulo 2^32 (or clamped) and can pass the "
+                      "range checks that follow" % (short(n), short(c).rsplit("::", 1)[-1]))
     ctx.finish_rule()
